@@ -199,6 +199,22 @@ pub fn inputs_c04(r: &mut Rng, n: usize, _tier: &str, out: &mut dyn Write) {
 }
 
 pub fn inputs_c05(r: &mut Rng, n: usize, _tier: &str, out: &mut dyn Write) {
+    // symmetry block: for every ordered pair of scales the value whose count in the target scale is the NEGATION of
+    // its count in the source scale (v = -(offset difference)/2), +/- 2 ns -- `Duration ==` holds between a duration
+    // and its negation within a century of zero, so shortcuts written with `==` misfire exactly there
+    for a in UNIFORM {
+        for b in UNIFORM {
+            if a == b {
+                continue;
+            }
+            let v = -(ref_off(a) - ref_off(b)) / 2;
+            for k in -2i128..=2 {
+                writeln!(out, "tots {}:{} {}", dstr(v + k), a, b).unwrap();
+                writeln!(out, "tsback {}:{} {}", dstr(v + k), a, b).unwrap();
+                writeln!(out, "tscomm {}:{} {} {}", dstr(v + k), a, b, dstr(1 + r.below(1000) as i128)).unwrap();
+            }
+        }
+    }
     for k in 0..n {
         if k % 12 == 11 {
             // the thin public wrappers (from_X_seconds/days, to_X_seconds/days, to_tai(unit) ...) against the generic call
@@ -337,8 +353,41 @@ pub fn inputs_c06(r: &mut Rng, n: usize, tier: &str, out: &mut dyn Write) {
     writeln!(out, "leap_table file").unwrap();
 }
 
-pub fn inputs_c07(r: &mut Rng, n: usize, _tier: &str, out: &mut dyn Write) {
+pub fn inputs_c07(r: &mut Rng, n: usize, tier: &str, out: &mut dyn Write) {
     const DYN: [&str; 2] = ["ET", "TDB"];
+    // symmetry block: the one place where the dynamical count d (past J2000) and the TAI count of the same instant
+    // (past J2000) are each other's NEGATION, d = +(dyn - TAI)/2 -- Duration's `==` holds between a duration and
+    // its negation within a century of zero, so a convergence or fast-path test written with `==` misfires exactly
+    // there; every nanosecond of a window around it, in both directions (aimed with the property's closed forms)
+    {
+        let w: i128 = if tier == "thorough" { 20_000 } else { 300 };
+        let j2000 = 3_155_716_800 * SEC;
+        for dy in DYN {
+            let delta = |t: f64| -> f64 {
+                if dy == "ET" {
+                    let m = 6.239996 + 1.99096871e-7 * t;
+                    32.184 + 1.657e-3 * (m + 1.671e-2 * m.sin()).sin()
+                } else {
+                    let g = 357.528_f64.to_radians() + 1.990910018065731e-7 * t;
+                    32.184 + 0.001658 * (g + 0.0167 * g.sin()).sin()
+                }
+            };
+            let mut d = 16.0_f64;
+            for _ in 0..8 {
+                d = delta(d) / 2.0;
+            }
+            let half = (d * 1e9).round() as i128;
+            for k in -w..=w {
+                let u = *r.pick(&UNIFORM);
+                writeln!(out, "dyn_to {}:{} {}", dstr(half + k), dy, u).unwrap();
+                writeln!(out, "dyn_to {}:{} {}", dstr(j2000 - ref_off(u) - half + k), u, dy).unwrap();
+                if k % 4 == 0 {
+                    writeln!(out, "dyn_rt {}:{} {}", dstr(half + k), dy, u).unwrap();
+                    writeln!(out, "dyn_rt {}:TAI {}", dstr(j2000 - half + k), dy).unwrap();
+                }
+            }
+        }
+    }
     for _ in 0..n {
         let u = *r.pick(&UNIFORM);
         let dy = *r.pick(&DYN);
